@@ -81,9 +81,17 @@ def gen_operator(rng, dt, hermitian, fn, depth=1):
         return {"k": "ScalarMul", "n": n, "dt": dt, "c": c}
     if form == "BlockDiag":
         b = int(rng.integers(1, 4))
-        return {"k": "BlockDiag", "via": "ctor", "mult": [int(rng.integers(1, 3)) for _ in range(b)],
-                "args": [gen_operator(rng, dt, hermitian, fn, 0) if rng.random() < 0.7 else gen_operator(rng, dt, hermitian, fn, depth - 1)
-                         for _ in range(b)]}
+
+        def block():
+            r = rng.random()
+            if r < 0.6:
+                return gen_operator(rng, dt, hermitian, fn, 0)
+            if r < 0.8:
+                # a block that is itself block diagonal, with different leaf blocks (repeated by the outer multiplicity)
+                return {"k": "BlockDiag", "via": "ctor", "mult": [int(rng.integers(1, 3)) for _ in range(2)],
+                        "args": [leaf(int(rng.integers(1, 3))), leaf(int(rng.integers(1, 4)))]}
+            return gen_operator(rng, dt, hermitian, fn, depth - 1)
+        return {"k": "BlockDiag", "via": "ctor", "mult": [int(rng.integers(1, 3)) for _ in range(b)], "args": [block() for _ in range(b)]}
     if form in ("Transpose", "Adjoint"):
         return {"k": form, "via": S.pick(rng, ["ctor", "fn"]), "arg": gen_operator(rng, dt, hermitian, fn, depth - 1)}
     if form in ("KronSum", "Kronecker"):
